@@ -701,3 +701,87 @@ def c02_aggregator_wiring(tier, rng):
             shutil.rmtree(d, ignore_errors=True)
     return {"obligations": obl, "discharged": dis, "violations": viol, "cases": obl, "exhaustive": True,
             "bound": "%d x %d strategy pairs x 6 counters" % (len(names), len(names)), "samples": [{"gene": "all", "transcript": "unique_only"}]}
+
+
+# ---- TPM tables: every column of a count table rescaled to 10^6, ratios kept -------------------------------------------------------------------
+def _tpm_case(seed):
+    import os, random, shutil, tempfile
+    rng = random.Random(seed)
+    lrc = native.repo_import("src/long_read_counter.py")
+    base = os.path.join(os.path.dirname(os.path.dirname(os.path.abspath(__file__))), ".run")
+    os.makedirs(base, exist_ok=True)
+    d = tempfile.mkdtemp(prefix="tpm", dir=base)
+    problems = []
+    try:
+        grouped = rng.random() < .7
+        groups = ["g%d" % k for k in range(rng.randint(2, 4))] if grouped else None
+        c = lrc.create_transcript_counter(os.path.join(d, "t"), "with_ambiguous", read_groups=set(groups) if groups else None)
+        ncol = len(groups) if grouped else 1
+        feats = ["T%d" % k for k in range(rng.randint(1, 6))]
+        # counts as the counters produce them: integers and fractions 1/k of shared reads; a column may sum to 0, to less than 1, or to more
+        col_kind = [rng.choice(["zero", "fraction", "any", "any"]) for _ in range(ncol)]
+        rows = {}
+        for f in feats:
+            rows[f] = [0.0 if col_kind[j] == "zero" else (rng.choice([0.0, 0.0, 0.25, 1 / 3.0, 0.5]) if col_kind[j] == "fraction"
+                                                         else rng.choice([0.0, 0.5, 1.0, 2.0, 7.5, 120.0])) for j in range(ncol)]
+        for j in range(ncol):
+            if col_kind[j] == "fraction" and sum(rows[f][j] for f in feats) >= 1:
+                for f in feats[1:]:
+                    rows[f][j] = 0.0
+        with open(c.output_counts_file_name, "w") as out:
+            out.write(c.format_header(c.ordered_groups if grouped else None))
+            for f in feats:
+                out.write("%s\t%s\n" % (f, "\t".join("%.2f" % v if not grouped else repr(v) for v in rows[f])))
+            if not grouped:
+                out.write("__ambiguous\t0\n__no_feature\t0\n__not_aligned\t0\n")
+        # the file is what convert_counts_to_tpm reads; parse it back the same way so that rounding in the file is not held against the TPMs
+        counts = {}
+        for line in open(c.output_counts_file_name):
+            if line.startswith("#") or line.startswith("_"):
+                continue
+            fs = line.rstrip().split("\t")
+            counts[fs[0]] = [float(x) for x in fs[1:]]
+        c.convert_counts_to_tpm("simple")
+        tpm = {}
+        for line in open(c.output_tpm_file_name):
+            if line.startswith("#") or line.startswith("_"):
+                continue
+            fs = line.rstrip().split("\t")
+            tpm[fs[0]] = [float(x) for x in fs[1:]]
+        for j in range(ncol):
+            tot = sum(counts[f][j] for f in feats)
+            col = [tpm.get(f, [0.0] * ncol)[j] for f in feats]
+            if tot > 0:
+                if abs(sum(col) - 1e6) > 1e-5 * len(feats) + 1e-3:
+                    problems.append("column %d: counts %s (sum %r) give TPMs summing to %r" % (j, [counts[f][j] for f in feats], tot, sum(col)))
+                for f, t in zip(feats, col):
+                    if abs(t - counts[f][j] * 1e6 / tot) > 1e-3:
+                        problems.append("column %d, %s: count %r of %r gives TPM %r" % (j, f, counts[f][j], tot, t))
+            elif any(col):
+                problems.append("column %d has no counts but TPMs %s" % (j, col))
+    finally:
+        shutil.rmtree(d, ignore_errors=True)
+    return problems
+
+
+def replay_tpm(d):
+    p = _tpm_case(d["inputs"]["seed"])
+    return (not p), "seed %s: %s" % (d["inputs"]["seed"], p[:3] or "every column rescaled to 10^6")
+
+
+@bounded("C02.tpm_rescaling", ["C02"], note="the real convert_counts_to_tpm('simple') of plain and grouped transcript counters on count tables with "
+         "integer and fractional (1/k) entries, incl. group columns that sum to 0 or to less than 1: every column with counts sums to 10^6 and "
+         "each value is count * 10^6 / column total; a column without counts stays zero")
+def c02_tpm(tier, rng):
+    n = 300 if tier == "quick" else 10000
+    base = rng.randrange(10 ** 9)
+    for k in range(n):
+        try:
+            p = _tpm_case(base + k)
+        except Exception as e:
+            p = ["exception %s: %s" % (type(e).__name__, e)]
+        if p:
+            return {"cases": k + 1, "bound": "%d tables" % n, "violations": [{
+                "obligation": "C02.tpm_rescaling", "inputs": {"seed": base + k}, "observed": p[:3], "required": "columns rescaled to 10^6, ratios kept",
+                "replay_call": "contracts.c_counters:replay_tpm"}]}
+    return {"cases": n, "bound": "%d random count tables" % n, "violations": [], "samples": [{"seed": base}]}
